@@ -536,3 +536,186 @@ Example encrypted_extensions_example :
   let m := mkEE (Some [104; 51]) true [(57, repeat 3 40)] in
   encrypted_extensions_wf m = true /\ exists bytes, enc_seq (tree_encrypted_extensions m) = Ok bytes /\ Zlen bytes = 63.
 Proof. split; [reflexivity|]. eexists. split; vm_compute; reflexivity. Qed.
+
+(* ================= ClientHello ========================================================================================= *)
+Definition dump_psks (p : list (list Z * Z) * list (list Z)) : list Z :=
+  dump_list dump_psk_identity (fst p) ++ dump_list out_bytes (snd p).
+
+Definition ch_xs (m : client_hello) : list xspec :=
+  [XKnown 51 [TBlock 2 (flat_map t_ks (ch_key_share m))] (dump_list dump_ext (ch_key_share m));
+   XKnown 43 [t_uints 1 2 (ch_supported_versions m)] (dump_ints (ch_supported_versions m));
+   XKnown 13 [t_uints 2 2 (ch_signature_algorithms m)] (dump_ints (ch_signature_algorithms m));
+   XKnown 10 [t_uints 2 2 (ch_supported_groups m)] (dump_ints (ch_supported_groups m))] ++
+  xo (fun l => XKnown 45 [t_uints 1 1 l] (dump_ints l)) (ch_psk_key_exchange_modes m) ++
+  xo (fun n => XKnown 0 [TBlock 2 [TInt 1 0; t_opaque 2 n]] (out_bytes n)) (ch_server_name m) ++
+  xo (fun l => XKnown 16 [t_opaques 2 1 l] (dump_list out_bytes l)) (ch_alpn_protocols m) ++
+  x_others (ch_other_extensions m) ++
+  (if ch_early_data m then [XKnown 42 [] []] else []) ++
+  xo (fun p => XKnown 41 (t_offered_psks p) (dump_psks p)) (ch_pre_shared_key m).
+
+Lemma ch_exts_xs m : ch_exts m = flat_map x_tree (ch_xs m).
+Proof.
+  unfold ch_exts, ch_xs. rewrite !flat_map_app, x_tree_others.
+  destruct (ch_psk_key_exchange_modes m), (ch_server_name m), (ch_alpn_protocols m), (ch_early_data m),
+           (ch_pre_shared_key m); reflexivity.
+Qed.
+
+(* integer fields in range, 32-byte random, ASCII names, other_extensions do not reuse a known type *)
+Definition client_hello_wf (m : client_hello) : bool :=
+  (Zlen (ch_random m) =? 32) && forallb u16b (ch_cipher_suites m) && forallb u8b (ch_compression_methods m) &&
+  forallb (fun k => u16b (fst k)) (ch_key_share m) && forallb u16b (ch_supported_versions m) &&
+  forallb u16b (ch_signature_algorithms m) && forallb u16b (ch_supported_groups m) &&
+  opt_b (forallb u8b) (ch_psk_key_exchange_modes m) && opt_b is_ascii (ch_server_name m) &&
+  opt_b (forallb is_ascii) (ch_alpn_protocols m) &&
+  opt_b (fun p => forallb (fun i => u32b (snd i)) (fst p)) (ch_pre_shared_key m) &&
+  forallb (ext_wf CH_ORDER) (ch_other_extensions m).
+
+Lemma pull_server_name_enc n rest : is_ascii n = true -> fits_tv (TBlock 2 [TInt 1 0; t_opaque 2 n]) = true ->
+  pull_server_name (flat_tv (TBlock 2 [TInt 1 0; t_opaque 2 n]) ++ rest) = Ok (n, rest).
+Proof.
+  intros Ha W. unfold pull_server_name. apply pull_block_tv; [exact W|].
+  rewrite fits_block, !fits_seq_cons, fits_int, fits_seq_nil in W.
+  rewrite !flat_seq_cons, flat_seq_nil, flat_int, app_nil_r. repeat rewrite <- app_assoc.
+  unfold pull_uint8. rewrite pull_be_roundtrip by u8_bound. cbn [bind Z.eqb negb].
+  rewrite pull_opaque_tv by lia. cbn [bind]. now rewrite Ha.
+Qed.
+
+Lemma ch_uints_ext ty cap w l toks_ok :
+  (forall len b, parse_client_hello_ext ty len b = Some (list_toks cap (item_uint w) b)) ->
+  0 <= ty < 65536 -> (1 <= w)%nat -> Forall (u_ok w) l -> toks_ok = dump_ints l ->
+  x_ok parse_client_hello_ext (XKnown ty [t_uints cap w l] toks_ok).
+Proof.
+  intros Hp Hty Hw F ->. cbn [x_ok]. split; [exact Hty|]. intros Wk len rest.
+  rewrite flat_single. rewrite fits_single in Wk. rewrite Hp.
+  rewrite uints_enc; [reflexivity|exact Hw|exact F|exact Wk].
+Qed.
+
+Lemma Forall_of_forallb {A} (f : A -> bool) (P : A -> Prop) l :
+  (forall a, f a = true -> P a) -> forallb f l = true -> Forall P l.
+Proof.
+  intros H W. apply Forall_forall. intros a Ha. rewrite forallb_forall in W. auto.
+Qed.
+
+Lemma ch_wf_parts m : client_hello_wf m = true ->
+  Zlen (ch_random m) = 32 /\ forallb u16b (ch_cipher_suites m) = true /\
+  forallb u8b (ch_compression_methods m) = true /\
+  forallb (fun k : ext => u16b (fst k)) (ch_key_share m) = true /\
+  forallb u16b (ch_supported_versions m) = true /\ forallb u16b (ch_signature_algorithms m) = true /\
+  forallb u16b (ch_supported_groups m) = true /\ opt_b (forallb u8b) (ch_psk_key_exchange_modes m) = true /\
+  opt_b is_ascii (ch_server_name m) = true /\ opt_b (forallb is_ascii) (ch_alpn_protocols m) = true /\
+  opt_b (fun p : list (list Z * Z) * list (list Z) => forallb (fun i => u32b (snd i)) (fst p)) (ch_pre_shared_key m) = true /\
+  forallb (ext_wf CH_ORDER) (ch_other_extensions m) = true.
+Proof.
+  unfold client_hello_wf. rewrite !andb_true_iff, Z.eqb_eq. tauto.
+Qed.
+
+Lemma u16_lit ty : u16b ty = true -> 0 <= ty < 65536.
+Proof. unfold u16b. lia. Qed.
+
+Lemma ch_xs_ok m : client_hello_wf m = true -> Forall (x_ok parse_client_hello_ext) (ch_xs m).
+Proof.
+  intros Wf. destruct (ch_wf_parts m Wf) as (Hr & Hcs & Hcm & Hks & Hsv & Hsa & Hsg & Hmo & Hsn & Hal & Hpsk & Hot).
+  clear Wf. unfold ch_xs. repeat (apply Forall_app; split).
+  - constructor; [|constructor; [|constructor; [|constructor; [|constructor]]]].
+    + cbn [x_ok]. split; [apply u16_lit; reflexivity|].
+      intros Wk len rest. rewrite flat_single. rewrite fits_single in Wk.
+      unfold parse_client_hello_ext. cbn [Z.eqb Pos.eqb].
+      rewrite key_shares_enc; [reflexivity| |exact Wk].
+      apply (Forall_of_forallb (fun k : ext => u16b (fst k)) ks_ok); [|exact Hks].
+      intros k H. clear - H. unfold ks_ok, u16b in *. lia.
+    + apply (ch_uints_ext 43 1 2); [reflexivity|apply u16_lit; reflexivity|apply le_S, le_n|now apply Forall_u16|reflexivity].
+    + apply (ch_uints_ext 13 2 2); [reflexivity|apply u16_lit; reflexivity|apply le_S, le_n|now apply Forall_u16|reflexivity].
+    + apply (ch_uints_ext 10 2 2); [reflexivity|apply u16_lit; reflexivity|apply le_S, le_n|now apply Forall_u16|reflexivity].
+  - apply Forall_xo. intros l Hl. rewrite Hl in Hmo. cbn [opt_b] in Hmo.
+    apply (ch_uints_ext 45 1 1); [reflexivity|apply u16_lit; reflexivity|apply le_n|now apply Forall_u8|reflexivity].
+  - apply Forall_xo. intros n Hn. rewrite Hn in Hsn. cbn [opt_b] in Hsn.
+    cbn [x_ok]. split; [apply u16_lit; reflexivity|].
+    intros Wk len rest. rewrite flat_single. rewrite fits_single in Wk.
+    unfold parse_client_hello_ext. cbn [Z.eqb Pos.eqb].
+    rewrite pull_server_name_enc by assumption. reflexivity.
+  - apply Forall_xo. intros l Hl. rewrite Hl in Hal. cbn [opt_b] in Hal.
+    cbn [x_ok]. split; [apply u16_lit; reflexivity|].
+    intros Wk len rest. rewrite flat_single. rewrite fits_single in Wk.
+    unfold parse_client_hello_ext. cbn [Z.eqb Pos.eqb].
+    rewrite alpns_enc; [reflexivity| |exact Wk].
+    apply (Forall_of_forallb is_ascii alpn_ok); [|exact Hal]. intros d H. exact H.
+  - apply (others_ok _ CH_ORDER); [|exact Hot].
+    intros ty len b H. unfold CH_ORDER in H. unfold parse_client_hello_ext. none_by_known H.
+  - destruct (ch_early_data m); [|constructor]. constructor; [|constructor].
+    cbn [x_ok]. split; [apply u16_lit; reflexivity|]. intros _ len rest. reflexivity.
+  - apply Forall_xo. intros p Hp. rewrite Hp in Hpsk. cbn [opt_b] in Hpsk.
+    cbn [x_ok]. split; [apply u16_lit; reflexivity|].
+    intros Wk len rest. unfold t_offered_psks in *.
+    rewrite !fits_seq_cons, fits_seq_nil, andb_true_r in Wk. apply andb_prop in Wk as [Wk1 Wk2].
+    rewrite !flat_seq_cons, flat_seq_nil, app_nil_r, <- app_assoc.
+    unfold parse_client_hello_ext. cbn [Z.eqb Pos.eqb].
+    rewrite psk_identities_enc; [| |exact Wk1].
+    + cbn [bind]. rewrite opaques_enc; [reflexivity|apply le_n|exact Wk2].
+    + apply (Forall_of_forallb (fun i : list Z * Z => u32b (snd i)) pskid_ok); [|exact Hpsk].
+      intros i H. clear - H. unfold pskid_ok, u32b in *. lia.
+Qed.
+
+Lemma psk_order_app ch xs : forall p ys,
+  psk_order ch p (xs ++ ys) = psk_order ch p xs && psk_order ch (p || (ch && existsb is41 xs)) ys.
+Proof.
+  induction xs as [|x t IH]; intros p ys; cbn [app psk_order existsb].
+  - now rewrite andb_false_r, orb_false_r.
+  - rewrite IH. rewrite <- andb_assoc. f_equal. f_equal. f_equal.
+    destruct p, ch, (is41 x), (existsb is41 t); reflexivity.
+Qed.
+
+Lemma no41_others l : existsb is41 (x_others l) = false.
+Proof. induction l as [|e t IH]; [reflexivity|]. cbn [x_others map existsb is41 orb]. exact IH. Qed.
+
+Lemma ch_psk_order m : psk_order true false (ch_xs m) = true.
+Proof.
+  unfold ch_xs.
+  destruct (ch_psk_key_exchange_modes m), (ch_server_name m), (ch_alpn_protocols m);
+    cbn [xo app psk_order is41 Z.eqb Pos.eqb andb orb negb];
+    rewrite psk_order_app, psk_order_others, no41_others by reflexivity;
+    destruct (ch_early_data m), (ch_pre_shared_key m); reflexivity.
+Qed.
+
+Lemma ch_out_est m :
+  out_est CH_ORDER (fold_left (x_step true) (ch_xs m) est0) =
+  (1 :: dump_list dump_ext (ch_key_share m)) ++ (1 :: dump_ints (ch_supported_versions m)) ++
+  (1 :: dump_ints (ch_signature_algorithms m)) ++ (1 :: dump_ints (ch_supported_groups m)) ++
+  dump_opt dump_ints (ch_psk_key_exchange_modes m) ++ dump_opt out_bytes (ch_server_name m) ++
+  dump_opt (dump_list out_bytes) (ch_alpn_protocols m) ++ dump_flag (ch_early_data m) ++
+  dump_opt dump_psks (ch_pre_shared_key m) ++ dump_list dump_ext (ch_other_extensions m).
+Proof.
+  unfold ch_xs. rewrite !fold_left_app, fold_others.
+  destruct (ch_psk_key_exchange_modes m), (ch_server_name m), (ch_alpn_protocols m), (ch_early_data m),
+           (ch_pre_shared_key m); cbn; repeat (cbn [app]; rewrite <- app_assoc); cbn [app]; rewrite ?app_nil_r;
+    reflexivity.
+Qed.
+
+Theorem client_hello_roundtrip m bytes rest : client_hello_wf m = true ->
+  enc_seq (tree_client_hello m) = Ok bytes ->
+  pull_client_hello (bytes ++ rest) = Ok (dump_client_hello m, rest).
+Proof.
+  intros Wf E. apply enc_seq_ok in E as [W ->].
+  pose proof (ch_xs_ok m Wf) as Hxs. pose proof (ch_out_est m) as Hout. pose proof (ch_psk_order m) as Hpsk.
+  destruct (ch_wf_parts m Wf) as (Hr & Hcs & Hcm & _). clear Wf.
+  unfold pull_client_hello, tree_client_hello, dump_client_hello in *.
+  apply (message_enc 1 (fun b =>
+           '(pre, b1) <- hello_prefix b ;; '(cs, b2) <- list_toks 2 (item_uint 2) b1 ;;
+           '(cm, b3) <- list_toks 1 (item_uint 1) b2 ;;
+           '(st, b4) <- pull_extensions parse_client_hello_ext true b3 ;;
+           Ok (pre ++ cs ++ cm ++ out_est CH_ORDER st, b4))); [lia|exact W|].
+  rewrite !fits_seq_cons, fits_block, !fits_seq_cons, !fits_int, fits_bytes, fits_seq_nil in W.
+  rewrite !flat_seq_cons, flat_seq_nil, !flat_int, flat_bytes, app_nil_r. repeat rewrite <- app_assoc.
+  rewrite hello_prefix_enc by lia. cbn [bind].
+  rewrite uints_enc; [|lia|now apply Forall_u16|lia]. cbn [bind].
+  rewrite uints_enc; [|lia|now apply Forall_u8|lia]. cbn [bind].
+  rewrite ch_exts_xs in *.
+  rewrite pull_extensions_enc; [|exact Hxs|exact Hpsk|lia].
+  cbn [bind]. rewrite Hout. unfold dump_psks. repeat rewrite <- app_assoc. reflexivity.
+Qed.
+
+Example client_hello_example :
+  let m := mkCH (repeat 7 32) (repeat 9 32) [0x1301; 0x1302] [0] [(0x001D, repeat 1 32)] [0x0304] [0x0403; 0x0804] [0x001D; 0x0017]
+                (Some [1]) (Some [97; 46; 98]) (Some [[104; 51]; [104; 113]]) true
+                (Some ([([1; 2; 3], 4294967295)], [repeat 5 32])) [(57, repeat 3 40); (0xFFA5, [])] in
+  client_hello_wf m = true /\ exists bytes, enc_seq (tree_client_hello m) = Ok bytes /\ Zlen bytes = 282.
+Proof. split; [reflexivity|]. eexists. split; vm_compute; reflexivity. Qed.
